@@ -163,21 +163,25 @@ def putUp (t : T α) : Except Fault (T α) := putUp1 t >>= fixL
 def splitFour (t : T α) : Except Fault (T α) :=
   if isRed (left t) && isRed (right t) then flip t else .ok t
 
-/-- `put_obj`. `new` is the payload of a freshly allocated node, `onDup` the in-place value
-    replacement for an existing key. Returns the new subtree and whether a node was added
-    (`tbl->num++`). -/
-def put (new : α) (onDup : α → α) : (fuel : Nat) → T α → Except Fault (T α × Bool)
+/-- `put_obj` for key `k`. `mk` is the payload of the freshly allocated node — `none` when
+    `new_obj` fails (ENOMEM): the descent, the 4-node splits and the fix-ups still happen, only
+    the leaf is missing. `onDup` is the in-place value replacement for an existing key.
+    Returns the new subtree and whether a node was added (`tbl->num++`). -/
+def put (k : K) (mk : Option α) (onDup : α → α) : (fuel : Nat) → T α → Except Fault (T α × Bool)
   | 0, _ => .error .outOfFuel
-  | _, nil => .ok (node nil new true nil, true)
+  | _, nil =>
+    match mk with
+    | some new => .ok (node nil new true nil, true)
+    | none => .ok (nil, false)
   | fuel + 1, node l a c r =>
     splitFour (node l a c r) >>= fun t =>
     match t with
     | nil => .error .nullDeref
     | node l1 a1 c1 r1 =>
-      match cmp (key new) (key a1) with
+      match cmp k (key a1) with
       | .eq => putUp (node l1 (onDup a1) c1 r1) >>= fun t => .ok (t, false)
-      | .lt => put new onDup fuel l1 >>= fun p => putUp (node p.1 a1 c1 r1) >>= fun t => .ok (t, p.2)
-      | .gt => put new onDup fuel r1 >>= fun p => putUp (node l1 a1 c1 p.1) >>= fun t => .ok (t, p.2)
+      | .lt => put k mk onDup fuel l1 >>= fun p => putUp (node p.1 a1 c1 r1) >>= fun t => .ok (t, p.2)
+      | .gt => put k mk onDup fuel r1 >>= fun p => putUp (node l1 a1 c1 p.1) >>= fun t => .ok (t, p.2)
 
 /-- going left in `remove_obj`: move red left when the left child is a 2-node -/
 def leftPrep (t : T α) : Except Fault (T α) :=
